@@ -679,6 +679,24 @@ pub fn hays_for(sp: &SweepProfile, thorough: bool, prop: Prop) -> Vec<Hay> {
         }
         return v;
     }
+    if sp.profile.name == "P-1char" && prop != Prop::C13 {
+        // counted loops need runs longer than their maximum: add runs of 4..=10 equal characters with
+        // a different character before / after
+        let mut v = enumerate::all_hays(&sp.alphabet, if thorough { sp.hay_thorough } else { sp.hay_quick });
+        for n in 4..=10usize {
+            for (c, d) in [('a', 'b'), ('é', 'a'), ('\u{1F600}', 'b')] {
+                let run: Vec<u32> = std::iter::repeat(c as u32).take(n).collect();
+                v.push(Hay::new(run.clone()));
+                let mut x = run.clone();
+                x.push(d as u32);
+                v.push(Hay::new(x));
+                let mut y = vec![d as u32];
+                y.extend(run.iter());
+                v.push(Hay::new(y));
+            }
+        }
+        return v;
+    }
     let mut alphabet = sp.alphabet.clone();
     if prop == Prop::C13 {
         // ASCII haystacks only; keep the ASCII fold partners of the non-ASCII pattern characters
